@@ -458,6 +458,54 @@ func (c *Ctx) cod3() {
 				}
 			}
 		}
+		// the converse: a handler that reports success has done what the packet
+		// stands for — a guard that fails must not end in "nil" (the malformed
+		// or unsolicited packet would pass without the reset it is due)
+		conv := c.acc("COD-3", fn, "nil-return⇒"+sp.what+"-happened")
+		effBlocks := map[*ssa.BasicBlock]bool{}
+		for _, p := range c.Paths("COD-3", fn) {
+			for i := range p.Events {
+				if e := &p.Events[i]; sp.effect(e) && e.Instr != nil && e.Instr.Block() != nil {
+					effBlocks[e.Instr.Block()] = true
+				}
+			}
+		}
+		for _, p := range c.Paths("COD-3", fn) {
+			if p.End != pathx.KReturn || retErr(p, len(p.Events)-1) != triNil {
+				continue
+			}
+			// (a segment that ends with the return of a helper expanded in place says nothing about the handler's)
+			if lf := p.Events[len(p.Events)-1].Fn; lf != nil && lf != fn {
+				continue
+			}
+			done := p.Index(0, sp.effect) >= 0
+			if !done && p.Start != nil {
+				// (a segment that starts at a loop inside a helper expanded in place is judged at the helper's call site)
+				starts := []*ssa.BasicBlock{p.Start}
+				if p.Start.Parent() != fn {
+					for _, cb := range fn.Blocks {
+						for _, ci := range cb.Instrs {
+							if call, ok := ci.(ssa.CallInstruction); ok && call.Common().StaticCallee() == p.Start.Parent() {
+								starts = append(starts, cb)
+							}
+						}
+					}
+				}
+				for b := range effBlocks {
+					for _, st := range starts {
+						if b.Parent() == st.Parent() && b.Dominates(st) {
+							done = true
+						}
+					}
+				}
+			}
+			if done {
+				conv.pass()
+			} else {
+				conv.fail(p, len(p.Events)-1, "the handler returns nil on a path without its %s: a packet that failed a check, or came unsolicited, is accepted in silence — no reset, and the exchange it belongs to stays open", sp.what)
+			}
+		}
+		conv.done(1, "every success return lies behind the effect")
 		eff.done(1, "the handler's first effect was located")
 		for _, g := range sp.guards {
 			accs[g.name].done(1, "established on every path to the first effect")
